@@ -4,6 +4,7 @@ import ObiVerif.Lemmas.Kmer4
 import ObiVerif.Lemmas.KmerCanon
 import ObiVerif.Lemmas.KmerWin
 import ObiVerif.Lemmas.DeBruijn
+import ObiVerif.Lemmas.DeBruijnGraph
 /-!
 # C19 — exact De Bruijn weights and heaviest path; strand-invariant canonical k-mers (property theorems)
 
